@@ -492,7 +492,6 @@ func c19Concurrent(w *verifrt.World, tier Tier) *RunResult {
 	return res
 }
 
-
 // auditFilesCheck parses what the real serial / concurrent writer left on the
 // simulated disk: whole records, every listed transaction exactly once, index
 // entries of the concurrent writer not interleaved (and, when stamps are given,
